@@ -66,8 +66,12 @@ def run(chk):
         if big:
             w = [rng.choice([1, 2, 3, 0.5]) for _ in big]
             ops.append({"op": "pc_conditional", "tbl": tbl, "weights": [core.fstr(x) for x in w]})
+            warr = np.array(w, dtype=float) if rng.random() < 0.5 else w
+            wsnap = list(map(float, w))
             checks.append(("pc_conditional[weights]", {**meta, "weights": w},
-                           core.call_real(lambda: float(st.pc_conditional(df, ["g"], "s", group_weights=w))), nt))
+                           core.call_real(lambda: float(st.pc_conditional(df, ["g"], "s", group_weights=warr))), nt))
+            if list(map(float, warr)) != wsnap:
+                chk.violation("C13|pc_conditional|mutates-weights", "pc_conditional modified the caller's group_weights array", {**meta, "weights": w})
         # pc_grouped_cross
         ops.append({"op": "pc_grouped_cross", "tbl": tbl})
         checks.append(("pc_grouped_cross", meta, core.call_real(lambda: st.pc_grouped_cross(df, "g", "s")), nt))
